@@ -79,6 +79,10 @@ func main() {
 		fmt.Printf("Error: undefined regular definition %s used in %s\n", id, usedIn)
 		os.Exit(1)
 	}
+	if err := g.LexPart.ExpandRegDefs(); err != nil {
+		fmt.Printf("Error: %s\n", err)
+		os.Exit(1)
+	}
 
 	gSymbols := symbols.NewSymbols(g)
 	if cfg.Verbose() {
